@@ -5,6 +5,7 @@
 package gotypes
 
 import (
+	"encoding"
 	"fmt"
 	"math"
 	"reflect"
@@ -42,9 +43,9 @@ type Gen struct {
 	// Feature switches: kinds listed here are NOT generated (quarantine of open findings).
 	Avoid map[string]bool
 	// Features used by the last GenType/GenValue.
-	Features map[string]bool
-	keys     map[string]bool
-	nfield   int
+	Features   map[string]bool
+	keys       map[string]bool
+	nfield     int
 	embedDepth int
 }
 
@@ -62,11 +63,106 @@ var scalarKinds = []reflect.Type{
 
 var anyType = reflect.TypeOf((*any)(nil)).Elem()
 
+// Named scalar types without methods (the codec must treat them by kind), and two types that are written
+// as strings through encoding.TextMarshaler: TextV marshals with a value receiver, TextP with a pointer
+// receiver (so that a TextP in a non-addressable position has to be copied before it can be marshalled).
+type (
+	NamedF32  float32
+	NamedF64  float64
+	NamedI16  int16
+	NamedI64  int64
+	NamedU8   uint8
+	NamedU32  uint32
+	NamedBool bool
+	NamedStr  string
+
+	TextV struct {
+		A int32
+		B int16
+	}
+	TextP struct {
+		A int32
+		B int16
+	}
+)
+
+func textOf(a int32, b int16) []byte {
+	return []byte(strconv.Itoa(int(a)) + ":" + strconv.Itoa(int(b)))
+}
+
+func parseText(b []byte, a *int32, c *int16) error {
+	x, y, ok := strings.Cut(string(b), ":")
+	if !ok {
+		return fmt.Errorf("gotypes: text %q has no colon", b)
+	}
+	p, err := strconv.ParseInt(x, 10, 32)
+	if err != nil {
+		return err
+	}
+	q, err := strconv.ParseInt(y, 10, 16)
+	if err != nil {
+		return err
+	}
+	*a, *c = int32(p), int16(q)
+	return nil
+}
+
+func (t TextV) MarshalText() ([]byte, error)  { return textOf(t.A, t.B), nil }
+func (t *TextV) UnmarshalText(b []byte) error { return parseText(b, &t.A, &t.B) }
+func (t *TextP) MarshalText() ([]byte, error) { return textOf(t.A, t.B), nil }
+func (t *TextP) UnmarshalText(b []byte) error { return parseText(b, &t.A, &t.B) }
+
+var (
+	textMarshalerType = reflect.TypeOf((*encoding.TextMarshaler)(nil)).Elem()
+	namedStrType      = reflect.TypeOf(NamedStr(""))
+	stringType        = reflect.TypeOf("")
+)
+
+func init() {
+	scalarKinds = append(scalarKinds,
+		reflect.TypeOf(NamedF32(0)), reflect.TypeOf(NamedF64(0)), reflect.TypeOf(NamedI16(0)), reflect.TypeOf(NamedI64(0)),
+		reflect.TypeOf(NamedU8(0)), reflect.TypeOf(NamedU32(0)), reflect.TypeOf(NamedBool(false)), namedStrType,
+		reflect.TypeOf(TextV{}), reflect.TypeOf(TextP{}))
+}
+
+// asText returns the text of a value that is written through encoding.TextMarshaler (by its own method set or by
+// its pointer's), ok=false for every other value.
+func asText(v reflect.Value) (text []byte, ok bool) {
+	t := v.Type()
+	if t.Kind() == reflect.Interface || t.Kind() == reflect.Pointer {
+		return nil, false
+	}
+	if !t.Implements(textMarshalerType) {
+		if !reflect.PointerTo(t).Implements(textMarshalerType) {
+			return nil, false
+		}
+		p := reflect.New(t) // a copy: the oracle never touches the value itself
+		p.Elem().Set(v)
+		v = p
+	}
+	if !v.CanInterface() {
+		return nil, false
+	}
+	b, err := v.Interface().(encoding.TextMarshaler).MarshalText()
+	if err != nil {
+		panic(unsupported("MarshalText error"))
+	}
+	return b, true
+}
+
 func (g *Gen) scalar() reflect.Type {
 	for {
 		t := scalarKinds[g.R.Intn(len(scalarKinds))]
 		if g.ok("scalar." + t.Kind().String()) {
 			g.feat("scalar." + t.Kind().String())
+			switch {
+			case t.Implements(textMarshalerType):
+				g.feat("text.value-receiver")
+			case reflect.PointerTo(t).Implements(textMarshalerType):
+				g.feat("text.pointer-receiver")
+			case t.PkgPath() != "":
+				g.feat("named." + t.Kind().String())
+			}
 			return t
 		}
 	}
@@ -78,7 +174,7 @@ func (g *Gen) GenType(depth int) reflect.Type {
 	if depth >= 4 {
 		return g.scalar()
 	}
-	switch r.Intn(12) {
+	switch r.Intn(13) {
 	case 0, 1, 2:
 		return g.scalar()
 	case 3, 4:
@@ -87,20 +183,36 @@ func (g *Gen) GenType(depth int) reflect.Type {
 			return g.scalar()
 		}
 		g.feat("slice." + et.Kind().String())
-		return reflect.SliceOf(et)
+		return reflect.SliceOf(g.maybePtr(et, "ptr.elem"))
 	case 5:
 		et := g.scalar()
 		if !g.ok("array."+et.Kind().String()) || !g.ok("array") {
 			return g.scalar()
 		}
 		g.feat("array." + et.Kind().String())
-		return reflect.ArrayOf(r.Range(0, 4), et)
+		return reflect.ArrayOf(r.Range(0, 4), g.maybePtr(et, "ptr.elem"))
 	case 6:
 		if !g.ok("map") {
 			return g.scalar()
 		}
 		g.feat("map")
-		return reflect.MapOf(reflect.TypeOf(""), g.GenType(depth+2))
+		kt := stringType
+		if r.Intn(4) == 0 {
+			kt = namedStrType
+			g.feat("map.namedkey")
+		}
+		return reflect.MapOf(kt, g.maybePtr(g.GenType(depth+2), "ptr.mapvalue"))
+	case 12:
+		// a pointer to anything of the universe: *[]T, *map[string]T, *struct, **T (values: never nil)
+		if !g.ok("ptr") {
+			return g.scalar()
+		}
+		et := g.GenType(depth + 1)
+		if et.Kind() == reflect.Interface {
+			return et
+		}
+		g.feat("ptr.to." + et.Kind().String())
+		return reflect.PointerTo(et)
 	case 7:
 		if !g.ok("any") {
 			return g.scalar()
@@ -110,6 +222,16 @@ func (g *Gen) GenType(depth int) reflect.Type {
 	default:
 		return g.GenStruct(depth)
 	}
+}
+
+// maybePtr wraps an element / map value type in a pointer now and then ([]*T, [N]*T, map[string]*T). Values of
+// such types never hold nil pointers (NBT has no null). Interface types are left alone.
+func (g *Gen) maybePtr(et reflect.Type, feat string) reflect.Type {
+	if g.R.Intn(6) != 0 || !g.ok("ptr") || et.Kind() == reflect.Interface {
+		return et
+	}
+	g.feat(feat)
+	return reflect.PointerTo(et)
 }
 
 // GenStruct builds a struct type with random tags, options, embedding and pointers.
@@ -256,8 +378,20 @@ func isTypedArrayCandidate(t reflect.Type) bool {
 // GenValue returns a new addressable value of type t.
 func (g *Gen) GenValue(t reflect.Type) reflect.Value {
 	v := reflect.New(t).Elem()
-	g.fill(v, 0)
+	g.fillElem(v, 0)
 	return v
+}
+
+// fillElem fills a root value, a slice / array element, a map value or what a pointer points to: a pointer in
+// these positions is never nil (only a struct FIELD of pointer type may be nil: it is then left out).
+func (g *Gen) fillElem(v reflect.Value, depth int) {
+	if v.Kind() == reflect.Pointer {
+		p := reflect.New(v.Type().Elem())
+		g.fillElem(p.Elem(), depth+1)
+		v.Set(p)
+		return
+	}
+	g.fill(v, depth)
 }
 
 func (g *Gen) fill(v reflect.Value, depth int) {
@@ -275,10 +409,10 @@ func (g *Gen) fill(v reflect.Value, depth int) {
 		v.SetUint(x)
 	case reflect.Float32:
 		v.SetFloat(float64(math.Float32frombits(r.Float32Bits())))
-		// keep exact bit pattern incl. NaN payloads
-		*(v.Addr().Interface().(*float32)) = math.Float32frombits(r.Float32Bits())
+		// keep exact bit pattern incl. NaN payloads (Convert between float32 kinds keeps the bits)
+		v.Set(reflect.ValueOf(math.Float32frombits(r.Float32Bits())).Convert(v.Type()))
 	case reflect.Float64:
-		*(v.Addr().Interface().(*float64)) = math.Float64frombits(r.Float64Bits())
+		v.SetFloat(math.Float64frombits(r.Float64Bits()))
 	case reflect.String:
 		v.SetString(g.str())
 	case reflect.Slice:
@@ -306,12 +440,12 @@ func (g *Gen) fill(v reflect.Value, depth int) {
 			return
 		}
 		for i := 0; i < n; i++ {
-			g.fill(s.Index(i), depth+1)
+			g.fillElem(s.Index(i), depth+1)
 		}
 		v.Set(s)
 	case reflect.Array:
 		for i := 0; i < v.Len(); i++ {
-			g.fill(v.Index(i), depth+1)
+			g.fillElem(v.Index(i), depth+1)
 		}
 	case reflect.Map:
 		switch r.Intn(6) {
@@ -326,8 +460,8 @@ func (g *Gen) fill(v reflect.Value, depth int) {
 		n := r.Range(1, 4)
 		for i := 0; i < n; i++ {
 			e := reflect.New(v.Type().Elem()).Elem()
-			g.fill(e, depth+1)
-			m.SetMapIndex(reflect.ValueOf(g.str()), e)
+			g.fillElem(e, depth+1)
+			m.SetMapIndex(reflect.ValueOf(g.str()).Convert(v.Type().Key()), e)
 		}
 		v.Set(m)
 	case reflect.Pointer:
@@ -336,7 +470,7 @@ func (g *Gen) fill(v reflect.Value, depth int) {
 			return
 		}
 		p := reflect.New(v.Type().Elem())
-		g.fill(p.Elem(), depth+1)
+		g.fillElem(p.Elem(), depth+1)
 		v.Set(p)
 	case reflect.Struct:
 		for i := 0; i < v.NumField(); i++ {
@@ -603,6 +737,9 @@ func expect(v reflect.Value, asList bool) *refnbt.Value {
 		}
 		v = v.Elem()
 	}
+	if text, ok := asText(v); ok {
+		return refnbt.St(string(text))
+	}
 	switch v.Kind() {
 	case reflect.Bool:
 		if v.Bool() {
@@ -634,6 +771,18 @@ func expect(v reflect.Value, asList bool) *refnbt.Value {
 	case reflect.Slice, reflect.Array:
 		n := v.Len()
 		et := v.Type().Elem()
+		if et.Kind() == reflect.Pointer && n > 0 {
+			// []*int32 and the like: "byte/int/long slices become typed arrays, other slices become lists" does not
+			// say on which side a slice of POINTERS to bytes/ints/longs falls (the encoder refuses it): not demanded
+			pt := et
+			for pt.Kind() == reflect.Pointer {
+				pt = pt.Elem()
+			}
+			switch pt.Kind() {
+			case reflect.Bool, reflect.Int8, reflect.Uint8, reflect.Int32, reflect.Uint32, reflect.Int64, reflect.Uint64:
+				panic(unsupported("slice of pointers to " + pt.Kind().String()))
+			}
+		}
 		if !asList {
 			switch et.Kind() {
 			case reflect.Bool, reflect.Int8, reflect.Uint8:
@@ -693,6 +842,12 @@ func float32FromValue(v reflect.Value) float32 {
 	}
 	if v.CanInterface() {
 		if f, ok := v.Interface().(float32); ok {
+			return f
+		}
+	}
+	if v.Kind() == reflect.Float32 && v.CanInterface() {
+		// named float32 types: Convert between two float32 kinds keeps the bit pattern (v.Float() would quiet a signalling NaN)
+		if f, ok := v.Convert(reflect.TypeOf(float32(0))).Interface().(float32); ok {
 			return f
 		}
 	}
@@ -883,6 +1038,9 @@ func clone(dst, src reflect.Value) {
 		for i := 0; i < src.NumField(); i++ {
 			if dst.Field(i).CanSet() {
 				clone(dst.Field(i), src.Field(i))
+			} else if sf := src.Type().Field(i); sf.Anonymous && sf.Type.Kind() == reflect.Struct {
+				// an embedded struct of an unexported type: its exported fields are promoted and settable
+				clone(dst.Field(i), src.Field(i))
 			}
 		}
 	default:
@@ -1022,7 +1180,19 @@ func TreeFromAny(x any) (*refnbt.Value, string) {
 // MatchGo checks that the Go value rv (decoded by the library into a typed
 // target) holds exactly what the tree `want` denotes. Struct fields whose key
 // is absent from `want` must still be zero. Returns "" on agreement.
+// Elements of a fixed-size array beyond the document's are not looked at (a
+// receiver that was used before may keep them); MatchGoFresh looks at them.
 func MatchGo(rv reflect.Value, want *refnbt.Value, path string) string {
+	return matchGo(rv, want, path, false)
+}
+
+// MatchGoFresh is MatchGo for a receiver that was zero before decoding: the
+// elements of a fixed-size array beyond the document's must still be zero.
+func MatchGoFresh(rv reflect.Value, want *refnbt.Value, path string) string {
+	return matchGo(rv, want, path, true)
+}
+
+func matchGo(rv reflect.Value, want *refnbt.Value, path string, fresh bool) string {
 	for rv.Kind() == reflect.Pointer {
 		if rv.IsNil() {
 			return path + ": nil pointer where a value was decoded"
@@ -1065,6 +1235,19 @@ func MatchGo(rv reflect.Value, want *refnbt.Value, path string) string {
 			return fmt.Sprintf("%s: float32 %08x for %s", path, math.Float32bits(float32FromValue(rv)), refnbt.Describe(want))
 		}
 	case reflect.Float64:
+		if want.Tag == refnbt.Float {
+			// a float widened into a float64 receiver: every float32 is exactly representable; a NaN stays a NaN
+			// (which one is not demanded: widening may quiet a signalling NaN)
+			f := math.Float32frombits(want.F32)
+			if f != f {
+				if g := rv.Float(); g == g {
+					return fmt.Sprintf("%s: float64 %016x for %s (not a NaN)", path, math.Float64bits(g), refnbt.Describe(want))
+				}
+			} else if math.Float64bits(rv.Float()) != math.Float64bits(float64(f)) {
+				return fmt.Sprintf("%s: float64 %016x for %s", path, math.Float64bits(rv.Float()), refnbt.Describe(want))
+			}
+			break
+		}
 		if want.Tag != refnbt.Double || math.Float64bits(rv.Float()) != want.F64 {
 			return fmt.Sprintf("%s: float64 %016x for %s", path, math.Float64bits(rv.Float()), refnbt.Describe(want))
 		}
@@ -1098,8 +1281,15 @@ func MatchGo(rv reflect.Value, want *refnbt.Value, path string) string {
 			return fmt.Sprintf("%s: array len %d < %d", path, rv.Len(), n)
 		}
 		for i := 0; i < n; i++ {
-			if d := MatchGo(rv.Index(i), elem(i), fmt.Sprintf("%s[%d]", path, i)); d != "" {
+			if d := matchGo(rv.Index(i), elem(i), fmt.Sprintf("%s[%d]", path, i), fresh); d != "" {
 				return d
+			}
+		}
+		if fresh && rv.Kind() == reflect.Array {
+			for i := n; i < rv.Len(); i++ {
+				if !rv.Index(i).IsZero() {
+					return fmt.Sprintf("%s[%d]: array len %d, document has %d elements, yet this element of a fresh receiver is not zero", path, i, rv.Len(), n)
+				}
 			}
 		}
 	case reflect.Map:
@@ -1110,11 +1300,11 @@ func MatchGo(rv reflect.Value, want *refnbt.Value, path string) string {
 			return fmt.Sprintf("%s: map has %d keys, want %d", path, rv.Len(), len(want.Comp))
 		}
 		for _, e := range want.Comp {
-			mv := rv.MapIndex(reflect.ValueOf(e.Name))
+			mv := rv.MapIndex(reflect.ValueOf(e.Name).Convert(rv.Type().Key()))
 			if !mv.IsValid() {
 				return fmt.Sprintf("%s: key %q missing", path, e.Name)
 			}
-			if d := MatchGo(mv, e.V, path+"."+e.Name); d != "" {
+			if d := matchGo(mv, e.V, path+"."+e.Name, fresh); d != "" {
 				return d
 			}
 		}
@@ -1139,7 +1329,7 @@ func MatchGo(rv reflect.Value, want *refnbt.Value, path string) string {
 				}
 				continue
 			}
-			if d := MatchGo(rv.Field(i), wv, path+"."+sf.Name); d != "" {
+			if d := matchGo(rv.Field(i), wv, path+"."+sf.Name, fresh); d != "" {
 				return d
 			}
 		}
@@ -1149,48 +1339,192 @@ func MatchGo(rv reflect.Value, want *refnbt.Value, path string) string {
 	return ""
 }
 
+// Fits reports whether a receiver of type t (as built by TargetFor for a same-shaped document) can hold the
+// tree: a fixed-size array takes a byte / int / long array of exactly its length and a list of at most its
+// length. Everything else fits by construction.
+func Fits(t reflect.Type, want *refnbt.Value) bool {
+	for t.Kind() == reflect.Pointer {
+		t = t.Elem()
+	}
+	switch t.Kind() {
+	case reflect.Array, reflect.Slice:
+		n := -1
+		switch want.Tag {
+		case refnbt.ByteArray:
+			n = len(want.Bytes)
+		case refnbt.IntArray:
+			n = len(want.Ints)
+		case refnbt.LongArray:
+			n = len(want.Longs)
+		case refnbt.List:
+			if t.Kind() == reflect.Array && len(want.List) > t.Len() {
+				return false
+			}
+			for _, e := range want.List {
+				if !Fits(t.Elem(), e) {
+					return false
+				}
+			}
+			return true
+		}
+		if t.Kind() == reflect.Array && n >= 0 && n != t.Len() {
+			return false
+		}
+	case reflect.Struct:
+		if want.Tag != refnbt.Compound {
+			return true
+		}
+		for i := 0; i < t.NumField(); i++ {
+			sf := t.Field(i)
+			fi := readTag(sf)
+			if fi.skip || !sf.IsExported() {
+				continue
+			}
+			if fi.name == "" {
+				fi.name = sf.Name
+			}
+			if wv := want.Get(fi.name); wv != nil && !Fits(sf.Type, wv) {
+				return false
+			}
+		}
+	}
+	return true
+}
+
 // Named slice types (the decoder treats a named 8-bit slice differently from plain []byte).
 type (
 	NamedBytes []byte
 	NamedInt8s []int8
 )
 
+func typesOf(vs ...any) []reflect.Type {
+	out := make([]reflect.Type, len(vs))
+	for i, v := range vs {
+		out[i] = reflect.TypeOf(v)
+	}
+	return out
+}
+
 // TargetFor builds a Go type able to hold the tree `want` using natural
-// typed targets: scalars by width, typed slices, structs over a random subset
+// typed targets: scalars of the wire width or wider (int and uint included),
+// typed slices, fixed-size arrays, structs over a random subset
 // of the compound's keys (the rest exercises unknown-field skipping), maps and
 // `any`. Keys must be distinct under FoldKey.
 func TargetFor(r *vm.Rand, want *refnbt.Value, depth int, feats map[string]bool) reflect.Type {
+	return targetFor(r, []*refnbt.Value{want}, depth, feats)
+}
+
+// targetFor: sibs are all the values that will be decoded into the returned type (the elements of one list;
+// a single value otherwise). sibs[0] decides the shape; the others only restrict the choice: an unsigned
+// receiver WIDER than the wire type is offered only when no value is negative (what a negative byte becomes
+// in a uint16 is not something the format says), a fixed-size array for a byte / int / long array only when
+// all of them have one length.
+func targetFor(r *vm.Rand, sibs []*refnbt.Value, depth int, feats map[string]bool) reflect.Type {
+	want := sibs[0]
 	if r.Intn(8) == 0 {
 		feats["target.any"] = true
 		return anyType
+	}
+	nonNeg := true
+	for _, s := range sibs {
+		if s.I < 0 {
+			nonNeg = false
+		}
+	}
+	int64bit := strconv.IntSize == 64
+	// pick: one of the exact-width types, or (one time in three) a wider one
+	pick := func(exact, widerSigned, widerUnsigned []reflect.Type) reflect.Type {
+		wider := widerSigned
+		if nonNeg {
+			wider = append(append([]reflect.Type{}, widerSigned...), widerUnsigned...)
+		}
+		if len(wider) > 0 && r.Intn(3) == 0 {
+			t := wider[r.Intn(len(wider))]
+			feats["target.widened"] = true
+			if t.Kind() == reflect.Int {
+				feats["target.int"] = true
+			}
+			if t.Kind() == reflect.Uint {
+				feats["target.uint"] = true
+			}
+			return t
+		}
+		return exact[r.Intn(len(exact))]
+	}
+	// sameLen: the common length of the typed arrays in sibs, or -1
+	sameLen := func() int {
+		n := -1
+		for i, s := range sibs {
+			l := len(s.Bytes) + len(s.Ints) + len(s.Longs)
+			if i > 0 && l != n {
+				return -1
+			}
+			n = l
+		}
+		return n
+	}
+	// seq: a slice of et, or one time in four a fixed-size array of n elements
+	seq := func(et reflect.Type, n int) reflect.Type {
+		if n >= 0 && r.Intn(4) == 0 {
+			feats["target.array"] = true
+			return reflect.ArrayOf(n, et)
+		}
+		return reflect.SliceOf(et)
 	}
 	switch want.Tag {
 	case refnbt.Byte:
 		if (want.I == 0 || want.I == 1) && r.Intn(4) == 0 {
 			return reflect.TypeOf(false)
 		}
-		return []reflect.Type{reflect.TypeOf(int8(0)), reflect.TypeOf(uint8(0))}[r.Intn(2)]
+		return pick(typesOf(int8(0), uint8(0), NamedU8(0)), typesOf(int16(0), int32(0), int64(0), int(0), NamedI16(0)), typesOf(uint16(0), uint32(0), uint64(0), uint(0)))
 	case refnbt.Short:
-		return []reflect.Type{reflect.TypeOf(int16(0)), reflect.TypeOf(uint16(0))}[r.Intn(2)]
+		return pick(typesOf(int16(0), uint16(0), NamedI16(0)), typesOf(int32(0), int64(0), int(0)), typesOf(uint32(0), uint64(0), uint(0)))
 	case refnbt.Int:
-		return []reflect.Type{reflect.TypeOf(int32(0)), reflect.TypeOf(uint32(0))}[r.Intn(2)]
+		return pick(typesOf(int32(0), uint32(0), NamedU32(0)), typesOf(int64(0), int(0), NamedI64(0)), typesOf(uint64(0), uint(0)))
 	case refnbt.Long:
-		return []reflect.Type{reflect.TypeOf(int64(0)), reflect.TypeOf(uint64(0))}[r.Intn(2)]
+		if int64bit {
+			return pick(typesOf(int64(0), uint64(0), NamedI64(0)), typesOf(int(0)), typesOf(uint(0)))
+		}
+		return pick(typesOf(int64(0), uint64(0), NamedI64(0)), nil, nil)
 	case refnbt.Float:
-		return reflect.TypeOf(float32(0))
+		nonNeg = false
+		return pick(typesOf(float32(0), float32(0), NamedF32(0)), typesOf(float64(0), NamedF64(0)), nil)
 	case refnbt.Double:
-		return reflect.TypeOf(float64(0))
+		return typesOf(float64(0), float64(0), NamedF64(0))[r.Intn(3)]
 	case refnbt.String:
-		return reflect.TypeOf("")
+		return typesOf("", "", "", NamedStr(""))[r.Intn(4)]
 	case refnbt.ByteArray:
 		feats["target.typedslice"] = true
-		return []reflect.Type{reflect.TypeOf([]byte(nil)), reflect.TypeOf([]int8(nil)), reflect.TypeOf([]bool(nil)), reflect.TypeOf(NamedBytes(nil)), reflect.TypeOf(NamedInt8s(nil))}[r.Intn(5)]
+		if n := sameLen(); n >= 0 && r.Intn(4) == 0 {
+			feats["target.array"] = true
+			return reflect.ArrayOf(n, typesOf(byte(0), int8(0), false, NamedU8(0))[r.Intn(4)])
+		}
+		return typesOf([]byte(nil), []int8(nil), []bool(nil), NamedBytes(nil), NamedInt8s(nil), []NamedU8(nil))[r.Intn(6)]
 	case refnbt.IntArray:
 		feats["target.typedslice"] = true
-		return reflect.TypeOf([]int32(nil))
+		ets := typesOf(int32(0), int32(0), uint32(0), int(0), NamedU32(0))
+		for _, s := range sibs {
+			for _, x := range s.Ints {
+				if x < 0 {
+					nonNeg = false
+				}
+			}
+		}
+		if nonNeg {
+			ets = append(ets, reflect.TypeOf(uint(0)))
+		}
+		et := ets[r.Intn(len(ets))]
+		feats["target.intarray."+et.Kind().String()] = true
+		return seq(et, sameLen())
 	case refnbt.LongArray:
 		feats["target.typedslice"] = true
-		return []reflect.Type{reflect.TypeOf([]int64(nil)), reflect.TypeOf([]uint64(nil))}[r.Intn(2)]
+		ets := typesOf(int64(0), uint64(0), NamedI64(0))
+		if int64bit {
+			ets = append(ets, reflect.TypeOf(int(0)), reflect.TypeOf(uint(0)))
+		}
+		et := ets[r.Intn(len(ets))]
+		feats["target.longarray."+et.Kind().String()] = true
+		return seq(et, sameLen())
 	case refnbt.List:
 		feats["target.slice"] = true
 		var et reflect.Type
@@ -1205,17 +1539,37 @@ func TargetFor(r *vm.Rand, want *refnbt.Value, depth int, feats map[string]bool)
 				et = anyType
 			}
 		default:
-			if len(want.List) > 0 {
-				et = TargetFor(r, want.List[0], depth+1, feats)
-			} else {
-				et = TargetFor(r, &refnbt.Value{Tag: want.Elem}, depth+1, feats)
+			var elems []*refnbt.Value
+			for _, s := range sibs {
+				elems = append(elems, s.List...)
 			}
+			if len(elems) == 0 {
+				elems = []*refnbt.Value{{Tag: want.Elem}}
+			}
+			et = targetFor(r, elems, depth+1, feats)
+		}
+		if r.Intn(4) == 0 {
+			// a fixed-size array at least as long as the longest of the lists (a shorter list leaves the rest alone)
+			n := 0
+			for _, s := range sibs {
+				n = max(n, len(s.List))
+			}
+			extra := []int{0, 0, 1, 3}[r.Intn(4)]
+			feats["target.array"] = true
+			if extra > 0 {
+				feats["target.array.longer-than-list"] = true
+			}
+			return reflect.ArrayOf(n+extra, et)
 		}
 		return reflect.SliceOf(et)
 	case refnbt.Compound:
 		switch r.Intn(4) {
 		case 0:
 			feats["target.map"] = true
+			if r.Intn(3) == 0 {
+				feats["target.map.namedkey"] = true
+				return reflect.MapOf(namedStrType, anyType)
+			}
 			return reflect.TypeOf(map[string]any(nil))
 		}
 		feats["target.struct"] = true
@@ -1227,7 +1581,7 @@ func TargetFor(r *vm.Rand, want *refnbt.Value, depth int, feats map[string]bool)
 				skipped = true
 				continue
 			}
-			ft := TargetFor(r, e.V, depth+1, feats)
+			ft := targetFor(r, []*refnbt.Value{e.V}, depth+1, feats)
 			var tag string
 			if strings.ContainsAny(e.Name, ",") || e.Name == "-" || r.Intn(3) == 0 {
 				tag = `nbtkey:` + strconv.Quote(e.Name)
